@@ -247,6 +247,7 @@ theorem step_inv {q q' : Quals} {op : QOp} {o : QOut} (hq : QInv q) (h : q.step 
   | iter => simp [Quals.step] at h; obtain ⟨_, rfl⟩ := h; exact hq
   | riter => simp [Quals.step] at h; obtain ⟨_, rfl⟩ := h; exact hq
   | ends => simp [Quals.step] at h; obtain ⟨_, rfl⟩ := h; exact hq
+  | iterScript m ops => simp [Quals.step] at h; obtain ⟨_, rfl⟩ := h; exact hq
   | iterMutAppend x =>
     simp only [Quals.step] at h
     simp at h; obtain ⟨_, rfl⟩ := h
@@ -461,6 +462,7 @@ theorem step_ok (q : Quals) (op : QOp) (h : docPanic q op = false) : ∃ r, q.st
   | iter => exact ⟨_, rfl⟩
   | riter => exact ⟨_, rfl⟩
   | ends => exact ⟨_, rfl⟩
+  | iterScript m ops => exact ⟨_, rfl⟩
   | iterMutAppend x => exact ⟨_, rfl⟩
   | rIterMutAppend x => exact ⟨_, rfl⟩
   | index k =>
